@@ -102,10 +102,10 @@ Proof.
   apply XN_upd_task; [|exact N]. cbn. rewrite map_app. cbn. apply NoDup_snoc; assumption.
 Qed.
 
-Lemma Lc_new_operation_own : forall ext t prio i m s,
-  XS ext s -> Lc t None None true s -> Lc t None None true (fst (new_operation t prio i m s)).
+Lemma Lc_new_operation_own : forall ext t wo ro uq prio i m s,
+  XS ext s -> Lc t wo ro uq s -> Lc t wo ro uq (fst (new_operation t prio i m s)).
 Proof.
-  intros ext t prio i m s HXS [N W R B A U O1 O2]. unfold new_operation. cbn [fst].
+  intros ext t wo ro uq prio i m s HXS [N W R B A U O1 O2]. unfold new_operation. cbn [fst].
   pose proof (ON_fresh s (XS_ON _ _ HXS)) as Hfr.
   set (o := s_nops s) in *. set (x := mkOper t prio i 0 m None).
   set (s1 := s <| s_nops ::= S |> <| s_ops ::= fun l => l ++ [(o, x)] |>).
@@ -127,10 +127,10 @@ Proof.
   - rewrite Et. exact W.
   - rewrite Et. exact R.
   - intros w He Hk. apply B; assumption.
-  - intros w Ew. discriminate.
-  - intros _ o' j v Ha Hto Hjv Hin. change (s_invs s2) with (s_invs s) in Hjv.
+  - exact A.
+  - intros Huq o' j v Ha Hto Hjv Hin. change (s_invs s2) with (s_invs s) in Hjv.
     destruct (Hcases o' Ha) as [Ha0| ->].
-    + destruct (Hold o' Ha0) as [E _]. unfold tsk in Hto. rewrite E in Hto. exact (U eq_refl o' j v Ha0 Hto Hjv Hin).
+    + destruct (Hold o' Ha0) as [E _]. unfold tsk in Hto. rewrite E in Hto. exact (U Huq o' j v Ha0 Hto Hjv Hin).
     + pose proof (XS_St _ _ HXS) as [_ [_ [Hnd _]]].
       assert (Ev : get_inv s j = v) by (unfold get_inv; rewrite (In_aget_NoDup iref_eqb iref_eqb_eq _ _ _ Hnd Hjv); reflexivity).
       rewrite <- Ev in Hin. destruct (XQ _ _ (XS_X _ _ HXS) _ _ Hin) as [E _]. congruence.
